@@ -220,21 +220,20 @@ Definition dec_len (a : N) (b : list N) : res (N * list N) :=
   do (u, b') <- read_uint a b ;;
   if 9223372036854775808 <=? u then Err EOverflow else Ok (u, b').
 
-(* chkOvf.SignedIntV(ui): overflow iff the top bit is set and the low 63 bits exceed
-   MaxInt64-1, i.e. only for 2^64-1; otherwise int64(ui) (two's complement) *)
-Definition signed_int_v (u : N) : res Z :=
-  if (N.shiftr u 63 =? 1) && (9223372036854775806 <? N.land u 9223372036854775807) then Err EOverflow
-  else Ok (if u <? 9223372036854775808 then Z.of_N u else (Z.of_N u - 18446744073709551616)%Z).
-
 Definition wrap_int64 (z : Z) : Z :=
   let m := (z mod 18446744073709551616)%Z in
   if (m <? 9223372036854775808)%Z then m else (m - 18446744073709551616)%Z.
 
-(* decNegintPosintFloatNumberHelperInt64v(ui, neg, incrIfNeg=true) *)
+(* decNegintPosintFloatNumberHelperInt64v(ui, neg, incrIfNeg=true), after the C07 repair of
+   checkOverflow.SignedInt: ui++ (wraps for 2^64-1: -2^64 still reads as 0, F07-2), then
+   chkOvf.Uint2Int(ui, neg): overflow iff (neg && ui > 1<<63) || (!neg && ui >= 1<<63);
+   i = int64(ui); if neg { i = -i } *)
 Definition int64v (u : N) (neg : bool) : res Z :=
   let u1 := if neg then (u + 1) mod 18446744073709551616 else u in
-  do i <- signed_int_v u1 ;;
-  Ok (if neg then wrap_int64 (- i) else i).
+  if (neg && (9223372036854775808 <? u1)) || (negb neg && (9223372036854775808 <=? u1)) then Err EOverflow
+  else
+    let i := if u1 <? 9223372036854775808 then Z.of_N u1 else (Z.of_N u1 - 18446744073709551616)%Z in
+    Ok (if neg then wrap_int64 (- i) else i).
 
 (* the chunk loop of DecodeBytes for 0x5f / 0x7f; bd of the next chunk is read by CheckBreak *)
 Fixpoint dec_chunks (f : nat) (mt : N) (b : list N) : res (list N * list N) :=
